@@ -34,8 +34,10 @@ FromJson(j) == [h |-> j.h, tip |-> j.tip, win |-> j.win,
                 ls |-> [k \in DOMAIN j.ls |-> [w |-> SeqSet(j.ls[k].w), s |-> SeqSet(j.ls[k].s),
                                                tw |-> j.ls[k].tw, m |-> j.ls[k].m]],
                 tds |-> FALSE, mds |-> FALSE]
-PreOf(i) == FromJson(Nodes[i + 1].pre)
-PostOf(nd, to) == IF to >= 0 THEN Obs(PreOf(to)) ELSE Obs(FromJson(nd.pre))
+\* every node converted once (a constant: TLC evaluates it a single time)
+States == [i \in DOMAIN Nodes |-> FromJson(Nodes[i].pre)]
+StateOf(nd) == States[nd.id + 1]
+PostOf(nd, to) == IF to >= 0 THEN Obs(States[to + 1]) ELSE Obs(StateOf(nd))
 
 VARIABLES node, g, last
 vars == <<node, g, last>>
@@ -48,7 +50,7 @@ Init == /\ node = 0
 EdgeGhost(gh, nd, e) ==
   IF e[1] = -2
   THEN [gh EXCEPT !.frameOK = gh.frameOK /\ (e[3] = 0 => e[5] = 0)]
-  ELSE Ghost(gh, K, Obs(FromJson(nd.pre)), Alphabet[e[2]], Resp(e[3], e[4]), e[5], PostOf(nd, e[1]))
+  ELSE Ghost(gh, K, Obs(StateOf(nd)), Alphabet[e[2]], Resp(e[3], e[4]), e[5], PostOf(nd, e[1]))
 
 EdgeStep == \E j \in DOMAIN Nodes[node + 1].e :
   LET nd == Nodes[node + 1]
@@ -79,11 +81,11 @@ ProbesWhere(Bad(_, _)) == UNION {IdxWhere(i, Nodes[i].p, Bad) : i \in DOMAIN Nod
 
 \* 1. conformance
 EdgeConforms(nd, e) ==
-  LET o == Step(FromJson(nd.pre), Alphabet[e[2]], K) IN
+  LET o == Step(StateOf(nd), Alphabet[e[2]], K) IN
   /\ o.resp = Resp(e[3], e[4])
   /\ e[1] >= 0 => Obs(o.s) = PostOf(nd, e[1])
 ProbeConforms(nd, p) ==
-  LET o1 == Step(FromJson(nd.pre), Alphabet[p[1]], K)
+  LET o1 == Step(StateOf(nd), Alphabet[p[1]], K)
       o2 == Step(o1.s, Alphabet[p[2]], K) IN
   /\ o2.resp = Resp(p[3], p[4])
   /\ p[5] >= 0 => Obs(o2.s) = PostOf(nd, p[5])
@@ -105,11 +107,11 @@ Refused == FoldLeft(LAMBDA acc, nd : acc + Cardinality({k \in DOMAIN nd.e : nd.e
 DescribeEdge(x) == LET nd == Nodes[x[1]] e == nd.e[x[2]] IN
   [node |-> nd.id, ri |-> e[2], pre |-> nd.pre, req |-> Alphabet[e[2]], ok |-> e[3], err |-> e[4], chg |-> e[5],
    to |-> e[1], post |-> IF e[1] >= 0 THEN Nodes[e[1] + 1].pre ELSE nd.pre,
-   expected |-> LET o == Step(FromJson(nd.pre), Alphabet[e[2]], K) IN [resp |-> o.resp, h |-> o.s.h, tip |-> o.s.tip.id, nwin |-> Len(o.s.win)]]
+   expected |-> LET o == Step(StateOf(nd), Alphabet[e[2]], K) IN [resp |-> o.resp, h |-> o.s.h, tip |-> o.s.tip.id, nwin |-> Len(o.s.win)]]
 DescribeProbe(x) == LET nd == Nodes[x[1]] p == nd.p[x[2]] IN
   [node |-> nd.id, qi |-> p[1], ri |-> p[2], pre |-> nd.pre, q |-> Alphabet[p[1]], req |-> Alphabet[p[2]],
    ok |-> p[3], err |-> p[4], to |-> p[5],
-   expected |-> Step(Step(FromJson(nd.pre), Alphabet[p[1]], K).s, Alphabet[p[2]], K).resp]
+   expected |-> Step(Step(StateOf(nd), Alphabet[p[1]], K).s, Alphabet[p[2]], K).resp]
 \* violating edges / probes as compact tuples (the orchestration expands them):
 \*   edge  <<node, request, ok, err, changed>>      probe <<node, refused request, probe request, ok, err>>
 EdgeTuple(x)  == LET nd == Nodes[x[1]] e == nd.e[x[2]] IN <<nd.id, e[2], e[3], e[4], e[5]>>
